@@ -2,13 +2,14 @@
 clauses over the same code)."""
 from pyvc import alg
 
-from .common import F, G, MISS, S, Case, Env, basic_shape_clauses, case_of, minmax, pval
+from .common import F, G, H, MISS, S, Case, Env, basic_shape_clauses, case_of, minmax, pval, series_grid
 
 
 class GrossRange(Case):
     module = "ioos_qc.qartod"
     function = "gross_range_test"
     index_offsets = (0,)
+    props = {"post.flag_by_interval": ("C03",), "raises.suspect-outside-fail": ("C03",)}
 
     def declare(self, mk):
         e = Env()
@@ -53,6 +54,17 @@ class GrossRange(Case):
 
     def post_global(self, e, res):
         return {"one_flag_per_element": alg.eq(res.n, e.n) if res.is_array else False}
+
+    def grid(self, tier, rng):
+        fs = [(0, 1), (1, 0), (0, 0), (-2, 3)]
+        ss = [(0, 1), (H, H), (1, H), (-3, 0), (0, 2)] if self.params["suspect"] else [None]
+        for xs in series_grid(3 if tier == "quick" else 4):
+            for f in fs:
+                for s_ in ss:
+                    v = {"n": len(xs), "x": list(xs), "f0": f[0], "f1": f[1]}
+                    if s_:
+                        v["s0"], v["s1"] = s_
+                    yield v
 
 
 def cases():
